@@ -2,22 +2,10 @@
 import PasskeyVerif.Base.Hex
 import PasskeyVerif.Base.Cbor
 import PasskeyVerif.Model.AuthData
+import PasskeyVerif.Model.AuthDataCbor
 import PasskeyVerif.Spec.AuthData
 namespace PasskeyVerif.Driver.AuthData
 open PasskeyVerif PasskeyVerif.AuthData
-
-/-- `ciborium::de::from_reader` on the remaining bytes: length of the first item; ciborium's recursion
-limit refuses an item nested deeper than 256 containers -/
-def skip (bs : Bytes) : Option Nat :=
-  match Cbor.decode1 bs with
-  | some (x, r) => if x.depth > 256 then none else some (bs.length - r.length)
-  | none => none
-
-/-- `CoseKey::from_cbor_value`: a map with a key type (label 1) -/
-def validKey (bs : Bytes) : Bool :=
-  match Cbor.decode1 bs with
-  | some (.map kvs, _) => (Cbor.mapGetInt kvs 1).isSome
-  | _ => false
 
 def optBytes (s : String) : Option (Option Bytes) := if s = "NONE" then some none else (bytesOfHex s).map some
 
